@@ -730,6 +730,9 @@ class Evaluator:
             if isinstance(v, Bits) and w:
                 return v.resize(w)
             if isinstance(v, Cond) and w:
+                if v.op == "any" and v.a[1] and len(v.a[0]) == 1:
+                    # `(x & one_hot != 0) as uN` is the value of that bit, the same value as `(x >> n) & 1`
+                    return Bits(w, [next(iter(v.a[0]))] + [0] * (w - 1))
                 return Sym("boolcast(%s)" % ckey(v))
             return Sym("cast(%s as %s)" % (vkey(v), ty))
         if k == "Field":
@@ -1484,6 +1487,10 @@ class Evaluator:
             for c, r in reversed(vals[:-1]):
                 res = self._ite(c, r, res)
             return res
+        # a closure held in a local and called: `f(a, b)` is Fn::call(&f, (a, b))
+        if fn.startswith("core::ops::function::Fn") and name in ("call", "call_mut", "call_once") and len(args) == 2 \
+                and isinstance(args[0], tuple) and args[0] and args[0][0] == "closure" and isinstance(args[1], tuple) and depth < self.max_depth:
+            return self.call_closure(args[0], list(args[1]), depth + 1)
         # local function: inline
         target = None
         if res in self.f.fns and self.f.fns[res].get("thir"):
